@@ -400,6 +400,17 @@ func init() {
 			progs = append(progs, c10Input{Files: files, Reps: reps})
 			nontrivial = append(nontrivial, true)
 		}
+		// every dataflow skeleton (nested / run-time sized map calls, merged
+		// struct and map literals, disable chains ...), two instances each
+		for t := 0; t < pgen.NTemplates; t++ {
+			for k := 0; k < 2; k++ {
+				cfg := pgen.DefaultConfig()
+				cfg.SrcFor = func(string) (string, string) { return "comp", "/bin/true" }
+				p := pgen.Template(t, c.Seed*977+int64(2*t+k), cfg)
+				progs = append(progs, c10Input{Files: p.Print(), Reps: reps})
+				nontrivial = append(nontrivial, true)
+			}
+		}
 		// include fixing: a main file that uses callables from files in several
 		// directories (private "_x.mro" files, names containing the including
 		// file's name, plain names) without including any of them
